@@ -96,6 +96,21 @@ def replace_table(d, header_prefix, new):
     return d[:i] + new + d[j:]
 
 
+def asbuilt_bullets(d):
+    """each property section's `* **[as built]**` bullet = the registry's level_text (so the two cannot drift apart)"""
+    lines = d.split("\n")
+    cur, done = None, set()
+    for i, l in enumerate(lines):
+        m = re.match(r"### (C\d\d) ", l)
+        if m:
+            cur = m.group(1)
+        elif l.startswith("* **[as built]**") and cur in registry.PROPS and cur not in done:
+            r = registry.PROPS[cur]
+            lines[i] = "* **[as built]** %s  (Lean: %s; families: %s.)" % (r["level_text"], ", ".join(r["lean"]), ", ".join(r["families"]))
+            done.add(cur)
+    return "\n".join(lines), len(done)
+
+
 def main():
     d = open(D).read()
     marker = "| id | Lean property modules | correspondence families | theorems audited (axioms) | known findings |"
@@ -113,8 +128,9 @@ def main():
         d = replace_table(d, fm_marker, filemap())
     tbl, n = seeded()
     d = replace_table(d, "| seeded change | breaks | reported by (quick tier, seed 1) | what it does |", tbl)
+    d, nb = asbuilt_bullets(d)
     open(D, "w").write(d)
-    print("tables regenerated;", n, "seeded changes")
+    print("tables regenerated;", n, "seeded changes;", nb, "as-built bullets")
 
 
 if __name__ == "__main__":
